@@ -9,6 +9,8 @@ import Bclv.Proofs.Group9
 import Bclv.Proofs.LexRender10
 import Bclv.Proofs.Leaves1
 import Bclv.Proofs.Leaves2
+import Bclv.Proofs.Compile
+import Bclv.Model.Api
 import Bclv.Props.C01
 /-!
 # C20 — layout, comments and redundant parentheses never change meaning
@@ -315,6 +317,27 @@ theorem same_reading_same_compiled_program (a b : Bytes)
   obtain ⟨h1, h2, h3⟩ := same_core_same_program (lexWhole a) (lexWhole b) (newlinesFrom 0 a) (newlinesFrom 0 b)
     (lexWhole_lastEnd a) (lexWhole_lastEnd b) (accepted_no_fail a ha) (accepted_no_fail b hb) ha hb hsh hcore
   exact ⟨h3, h2, h1⟩
+
+/-- The same at the level of `Parse`: the compiled programs of two such texts have the same code
+section and the same constants section (what a dump shows of them); only positions and line table
+differ. -/
+theorem same_reading_same_code_and_constants (name : Bytes) (a b : Bytes)
+    (ha : (parseWhole name a).ok = true) (hb : (parseWhole name b).ok = true)
+    (ss : ShSs)
+    (hra : ∀ body e, lexWhole a = body ++ [e] → RdProgF ss (typs body) .EOF)
+    (hrb : ∀ body e, lexWhole b = body ++ [e] → RdProgF ss (typs body) .EOF)
+    (hcore : coreOf (lexWhole a) = coreOf (lexWhole b)) :
+    (parseWhole name a).prog.code = (parseWhole name b).prog.code
+    ∧ (parseWhole name a).prog.consts = (parseWhole name b).prog.consts := by
+  have ha' : (parseTokens (lexWhole a) (newlinesFrom 0 a)).ok = true := ha
+  have hb' : (parseTokens (lexWhole b) (newlinesFrom 0 b)).ok = true := hb
+  obtain ⟨h1, h2, _⟩ := same_reading_same_compiled_program a b ha' hb' ss hra hrb hcore
+  constructor
+  · simp only [parseWhole, ha', hb', if_true, compilePFast_eq]
+    exact h1
+  · simp only [parseWhole]
+    exact h2
+
 
 /-- Two such texts: `var x=2 def t{y=x*3}print x` and the same with a comment, other spacing,
 parentheses and semicolons — the same core tokens, both accepted, the same code and constants. -/
